@@ -4,6 +4,7 @@
 set -e
 cd "$(dirname "$0")/.."
 python3 tools/py2lean.py "${SSJ_REPO:-/repo}" lean/SSJ/Gen >/dev/null
+python3 tools/py2lean2.py "${SSJ_REPO:-/repo}" lean/SSJ/Gen >/dev/null
 cd lean
 lake build driver
-lake build SSJ.Props.All
+lake build SSJ.Props.All SSJ.Proofs.GenLoops
